@@ -16,7 +16,7 @@ PROFILE = {
 
 
 def build_cases(tier, seed):
-    n = 256 if tier == "quick" else 2400
+    n = 256 if tier == "quick" else 12000
     cases = []
     for i in range(n):
         s = seed * 100000 + 11000 + i
